@@ -487,6 +487,11 @@ func init() {
 				}
 				emit(101, TList{TBytes(append(two, 0, 0xAA, 0xBB, 0xCC))})
 			}
+			// the one-byte view on blocks that go on behind the reserved id 15 (RFC 8285 4.2: processing ends there):
+			// bytes that look like further elements, one of them reaching past the block
+			emit(302, TBytes([]byte{0xBE, 0xDE, 0, 1, 0xF0, 0x00, 0x10, 0xAA}), TList{TI(1), TI(2)})
+			emit(302, TBytes([]byte{0xBE, 0xDE, 0, 2, 0x10, 0xAA, 0xF0, 0x00, 0x2F, 0xBB, 0x00, 0x00}), TList{TI(1), TI(2), TI(11)})
+			emit(302, TBytes([]byte{0xBE, 0xDE, 0, 2, 0x31, 0xA1, 0xA2, 0xF7, 0x31, 0xB1, 0xB2, 0x4F}), TList{TI(3), TI(4)})
 			var hist [][]byte // the last well-formed wires: decoded in a row into one receiver (op 101 list)
 			for i := 0; i < n; i++ {
 				c := r.Fork(uint64(i))
@@ -517,10 +522,11 @@ func init() {
 					emit(101, TList{TBytes(m)})
 				}
 				// standalone views on the exact block
-				if blk := w.block(); blk != nil && !w.hasReserved() {
+				// (a one-byte block with the reserved id 15 included: the views end their walk there, as the decoder does)
+				if blk := w.block(); blk != nil {
 					ids := TList{}
 					for _, it := range w.items {
-						if !it.pad {
+						if !it.pad && !it.reserved {
 							ids = append(ids, TI(int64(it.id)))
 						}
 					}
